@@ -7,9 +7,10 @@
 (*                                                                         *)
 (* Families (Tier = "quick" uses the reduced sets, "thorough" the full):   *)
 (*  place  every option in every <<cli, cfg>> placement with every value,  *)
-(*         the other options as in one of four base vectors                *)
-(*  pairs  every pair of options in every pair of placements (quick:       *)
-(*         representative placements), others as in a base vector          *)
+(*         the other options as in one of five base vectors (both tiers)   *)
+(*  pairs  every pair of options in every pair of placements around the    *)
+(*         all-features base (quick: representative placements only;       *)
+(*         thorough: additionally representative placements around BaseMin)*)
 (*  table  the validation table: all combinations of the effective values  *)
 (*         of the options that decide (a u p s d hb w n i o), each placed  *)
 (*         uniformly (all on the command line / all in the config file /   *)
